@@ -21,6 +21,8 @@
 package compiler
 
 import (
+	"strings"
+
 	"github.com/gontainer/gontainer-helpers/v3/grouperror"
 	"github.com/gontainer/gontainer/internal/pkg/input"
 	"github.com/gontainer/gontainer/internal/pkg/maps"
@@ -59,7 +61,8 @@ func (s *StepCompileMeta) Process(i input.Input, d *output.Output) error {
 func (s *StepCompileMeta) handleImports(imports map[string]string) error {
 	var errs []error
 	maps.Iterate(imports, func(alias string, import_ string) {
-		errs = append(errs, s.aliasRegisterer.RegisterPrefixAlias(alias, import_))
+		// the validator accepts a quoted path here, as everywhere else (regex.MetaImport)
+		errs = append(errs, s.aliasRegisterer.RegisterPrefixAlias(alias, strings.Trim(import_, `"`)))
 	})
 	return grouperror.Prefix("imports: ", errs...)
 }
